@@ -40,7 +40,7 @@ namespace {
     }
     // a block of statements that builds/mutates one local and reports through t()/ts(); returns the local's name
     std::string piece(std::string &out, std::string &ret_expr) {
-      const int k = int(rng.below(20));
+      const int k = int(rng.below(21));
       switch (k) {
       case 0: {
         const std::string s = nm("s");
@@ -147,6 +147,20 @@ namespace {
         ret_expr = m + "[\"beta\"]";
         return m;
       }
+      case 20: {
+        // a function bound to a temporary: the bound argument is the same stored value for every call
+        switch (rng.below(3)) {
+        case 0: out += "ts(prebound()); "; break;
+        case 1: out += "ts(bind(grow, to_string(a))()); ts(prebound()); "; break;
+        default: {
+          const std::string b = nm("bf");
+          out += "var " + b + " = bind(grow, \"k\" + to_string(a)); ts(" + b + "()); ts(" + b + "()); ";
+          break;
+        }
+        }
+        ret_expr = lit_int();
+        return "";
+      }
       case 19: {
         // arithmetic-assignment operators used as ordinary functions on a parameter that is bound to a literal
         static const char *nums[] = {"7", "-5", "1 + 2", "2.5"};
@@ -227,7 +241,11 @@ namespace {
                         "def loopit(c) { var acc = \"\"; for (x : c) { acc += to_string(x); acc += \",\" }; return acc }\n"
                         "def late_helper(x) { return 1000 + x }\n"
                         "def addfn(n) { `+=`(n, 5); return n }\n"
-                        "def twice_op(op, x, y) { op(x, y); return x }\n";
+                        "def twice_op(op, x, y) { op(x, y); return x }\n"
+                        // (has_mark is only used by the known-finding replay C08-K1, never by generated bodies)
+                        "def has_mark(x) { var r = 0; if (!x.get_var_attr(\"k\").is_var_undef()) { r = 1 }; x.get_var_attr(\"k\") = 1; return r }\n"
+                        "def grow(s) { var q = s; q += \"z\"; return q }\n"
+                        "global prebound = bind(grow, to_string(1))\n";
 
   // definitions the embedder adds AFTER some code has already been evaluated (the engine under test evaluates the
   // warm-up calls first; a pristine reference engine has everything defined before its single call)
